@@ -1,95 +1,35 @@
-(* The stack constants of the CURRENT source (Gen/NestDepth.v, measured by harness/gen/nestdepth.py on every run) against
-   the conditions of Proofs/NestDepthP.v.  Every lemma here is re-checked by the kernel against what the code does now. *)
+(* The stack model of the CURRENT source (Gen/NestDepth.v: constants measured, guard of emit() observed by
+   harness/gen/nestdepth.py on every run) against Proofs/NestDepthP.v.  Every lemma here is re-checked by the kernel against
+   what the code does now. *)
 From Coq Require Import ZArith List Bool Lia.
 From RV Require Import Lang.NestDepth Proofs.NestDepthP Gen.NestDepth.
 Import ListNotations.
 Open Scope Z_scope.
 
-(* emit() needs no more frames than parse() for the prelude, per level of every block slot, and for every block header *)
-Lemma nest_blocks_dominated : blocks_dominated parse_stage emit_stage = true.
+(* emit() reports its own exhausted nesting as ValueError, like parse() (the repair of F-C11-emit-stack-window): the
+   obligation on the current source - without the wrapper the translator writes false and this lemma fails *)
+Lemma nest_emit_guarded : emit_guarded = true.
 Proof. vm_compute. reflexivity. Qed.
 
-(* the simple statements on which emit() needs MORE frames than parse() (finding F-C11-emit-stack-window):
-   rgb.on() / rgb.off() / motor.backward() / motor.invert() - their emitter branch goes through one more helper
-   (_emit_rgb_update, _emit_motor_drive_lines -> _ensure_*_tracking) than the parser needs to recognise the line *)
-Definition known_fat : list nat := [54; 55; 56; 57]%nat.
+(* the pipeline on the current source: for every room the caller leaves and EVERY program tree (any statements, any block
+   slots, any width and depth) - never a RecursionError from emit() *)
+Theorem nest_pipeline_clean : forall room p, pipeline emit_guarded parse_stage emit_stage room p <> 2.
+Proof. intros room p. rewrite nest_emit_guarded. apply guarded_pipeline_clean. Qed.
 
-Lemma nest_fat_leaves_pinned : fat_leaves parse_stage emit_stage = known_fat.
-Proof. vm_compute. reflexivity. Qed.
+Theorem nest_pipeline_outcomes : forall room p,
+  pipeline emit_guarded parse_stage emit_stage room p = 0 \/ pipeline emit_guarded parse_stage emit_stage room p = 1
+  \/ pipeline emit_guarded parse_stage emit_stage room p = 3.
+Proof. intros room p. rewrite nest_emit_guarded. apply guarded_pipeline_outcomes. Qed.
 
-Definition in_nat (l : nat) (xs : list nat) : bool := existsb (Nat.eqb l) xs.
+(* what parse() accepts and emit() cannot hold is rejected by emit() with ValueError: the former window of the finding *)
+Theorem nest_window_rejects : forall room p,
+  need_prog parse_stage p <= room -> room < need_prog emit_stage p -> pipeline emit_guarded parse_stage emit_stage room p = 3.
+Proof. intros room p. rewrite nest_emit_guarded. apply guarded_window_rejects. Qed.
 
-Lemma nest_thin_iff_not_known_fat :
-  forallb (fun l => Bool.eqb (thin parse_stage emit_stage l) (negb (in_nat l known_fat))) (seq 0 (length (st_leaf emit_stage))) = true.
-Proof. vm_compute. reflexivity. Qed.
-
-Lemma nest_same_leaf_count : length (st_leaf emit_stage) = length (st_leaf parse_stage).
-Proof. vm_compute. reflexivity. Qed.
-
-Lemma thin_of_not_fat : forall l, (l < length (st_leaf emit_stage))%nat -> ~ In l known_fat -> thin parse_stage emit_stage l = true.
-Proof.
-  intros l Hl Hn. pose proof nest_thin_iff_not_known_fat as H. rewrite forallb_forall in H.
-  specialize (H l). assert (HI : In l (seq 0 (length (st_leaf emit_stage)))) by (apply in_seq; lia).
-  specialize (H HI). apply Bool.eqb_prop in H. rewrite H.
-  assert (E : in_nat l known_fat = false).
-  { unfold in_nat. apply Bool.not_true_is_false. intro C. apply existsb_exists in C. destruct C as [x [Hx Hx2]].
-    apply Nat.eqb_eq in Hx2. subst. contradiction. }
-  rewrite E. reflexivity.
-Qed.
-
-(* the pipeline on the current source: for every room the caller leaves and every program tree over the measured
-   statements that avoids the four fat ones - never a RecursionError from emit() *)
-Theorem nest_pipeline_clean_partial : forall room p,
-  (forall l, In l (leaves_of_list p) -> (l < length (st_leaf emit_stage))%nat /\ ~ In l known_fat) ->
-  pipeline parse_stage emit_stage room p <> 2.
-Proof.
-  intros room p H. apply pipeline_clean; [exact nest_blocks_dominated|].
-  intros l Hl. destruct (H l Hl) as [A B]. apply thin_of_not_fat; assumption.
-Qed.
-
-Theorem nest_accepted_fits_partial : forall room p,
-  (forall l, In l (leaves_of_list p) -> (l < length (st_leaf emit_stage))%nat /\ ~ In l known_fat) ->
-  fits parse_stage room p = true -> fits emit_stage room p = true.
-Proof.
-  intros room p H. apply accepted_fits; [exact nest_blocks_dominated|].
-  intros l Hl. destruct (H l Hl) as [A B]. apply thin_of_not_fat; assumption.
-Qed.
-
-(* ... and with a fat one the unguarded statement is false: 75 nested `if` around rgb.off() (leaf 55) with 80 frames of room
-   - parse() accepts (75 + 5 frames), emit() needs 75 + 6 *)
-Theorem nest_emit_window_refuted : exists room p, pipeline parse_stage emit_stage room p = 2.
-Proof. exists 80. exists [ladder 0 75 55]. vm_compute. reflexivity. Qed.
-
-(* the window is exactly one level wide for these statements: one level less is emitted, one level more is rejected cleanly *)
-Example nest_window_one_level :
-  pipeline parse_stage emit_stage 80 [ladder 0 74 55] = 0 /\ pipeline parse_stage emit_stage 80 [ladder 0 76 55] = 1.
-Proof. vm_compute. split; reflexivity. Qed.
-
-(* non-vacuity of the guard: a thin statement at the deepest accepted level is emitted, one level deeper is a clean ValueError *)
-Example nest_guard_inhabited :
-  pipeline parse_stage emit_stage 80 [ladder 0 75 1; Block 4 [Block 5 [Leaf 6; Leaf 30]; Leaf 19]] = 0
-  /\ pipeline parse_stage emit_stage 80 [ladder 0 76 1] = 1
-  /\ (forall l, In l (leaves_of_list [ladder 0 75 1; Block 4 [Block 5 [Leaf 6; Leaf 30]; Leaf 19]]) ->
-        (l < length (st_leaf emit_stage))%nat /\ ~ In l known_fat).
-Proof.
-  split; [vm_compute; reflexivity|]. split; [vm_compute; reflexivity|].
-  intros l Hl. vm_compute in Hl.
-  repeat (destruct Hl as [Hl|Hl]; [subst l; split; [vm_compute; lia|intro C; vm_compute in C; intuition discriminate]|]).
-  contradiction.
-Qed.
-
-(* the seeded shape: one more frame per level in ANY inner slot of the current emitter (a recursive call moved into a local
-   helper) opens a window around every simple statement *)
-Lemma nest_inner_frames_equal : forall k, (k < 7)%nat ->
-  0 <= getz (st_frames parse_stage) k /\ getz (st_frames parse_stage) k <= getz (st_frames emit_stage) k
-  /\ (k < length (st_frames emit_stage))%nat.
-Proof.
-  intros k Hk. do 7 (destruct k as [|k]; [vm_compute; repeat split; try discriminate; lia|]). lia.
-Qed.
-
-Theorem nest_helper_frame_opens_window : forall k l extra, (k < 7)%nat -> 0 < extra ->
-  exists d room, pipeline parse_stage (bump_frames emit_stage k extra) room [ladder k d l] = 2.
-Proof.
-  intros k l extra Hk Hx. destruct (nest_inner_frames_equal k Hk) as [A [B C]].
-  apply extra_frame_opens_window; assumption.
-Qed.
+(* which scripts still yield firmware on the current source: everything parse() accepts, as far as the measured constants of
+   emit() are dominated by those of parse() (a fact about the tables the evidence reports; not an obligation - a deeper
+   emitter now costs accepted depth, not cleanliness) *)
+Theorem nest_accepted_yields_firmware : blocks_dominated parse_stage emit_stage = true ->
+  forall room p, (forall l, In l (leaves_of_list p) -> thin parse_stage emit_stage l = true) ->
+  fits parse_stage room p = true -> pipeline emit_guarded parse_stage emit_stage room p = 0.
+Proof. intros HD room p HT H. apply accepted_yields_firmware; assumption. Qed.
